@@ -25,7 +25,7 @@ DECIDES = (
     "output named by the function (C03.DIMENSIONS)."
     " every 'ratio == 1' switch of the relations is the same purely absolute test against TOL, no relative closeness test (numpy isclose/allclose defaults) anywhere in the grading modules except the two length-uniformity tests (C03.UNIT-RATIO-TESTS); a chop re-created for another edge hands exactly two quantities to the closure (C03.COPY-WELL-POSED = C04.PRESERVE-CARRIED)."
     ' No logarithm argument or result in grading.relations is clamped into range: an unrealisable request surfaces as an error, not as a repaired count (C03.REJECT-NOT-REPAIR).'
-    ' Nothing in the grading package memoises a value computed from state its class changes later (C03.NO-MEMO); root finders run with default tolerances (C03.SOLVER-TOLERANCE); nothing is rounded to decimals (C03.NO-ROUNDING).'
+    ' Nothing in the grading package memoises a value computed from state its class changes later (C03.NO-MEMO); root finders run with default tolerances (C03.SOLVER-TOLERANCE); nothing is rounded to decimals (C03.NO-ROUNDING). Every relation taking a total / cell-to-cell expansion ends in a raise when run abstractly with that ratio at 0, -0.5 and -2 (C03.RATIO-REJECTION).'
 )
 NOT_DECIDED = (
     "that the formulas are the geometric-progression identities, rounding of counts, behaviour near ratio 1, finiteness - identities "
@@ -739,4 +739,142 @@ def no_rounding(repo: Repo) -> RuleRun:
 
 no_rounding.rule_id = "C03.NO-ROUNDING"
 
-RULES = [registry_agreement, closure, invert_complete, validation_siblings, dimensions, bracket_siblings, unit_ratio_tests, copy_well_posed, no_stale_lazy_cache, reject_not_repair, no_memo, solver_tolerance, no_rounding]
+# --------------------------------------------------------------------------------------------
+def ratio_rejection(repo: Repo) -> RuleRun:
+    """'... the total expansion is finite and positive ... parameter sets that cannot be realised on the edge are rejected with
+    an error': a total or cell-to-cell expansion that is zero or negative cannot be realised by a geometric progression. Every
+    relation that takes a ratio is run abstractly (float arithmetic of the analyser, numpy's log / isnan and the root finder
+    modelled) with that ratio at 0, -0.5 and -2 and ordinary companions: the run must end in a raise, not in a result."""
+    import math
+
+    r = RuleRun(PROP, "C03.RATIO-REJECTION", floor=10, what="every relation taking a total / cell-to-cell expansion rejects a zero or negative ratio (abstract run with the ratio at 0, -0.5, -2 ends in a raise); the validators accept 0.5, 1, 2")
+    ORDINARY = {"length": 1.0, "count": 10, "start_size": 0.1, "end_size": 0.1, "c2c_expansion": 1.1, "total_expansion": 2.0}
+
+    def hook(ev, call, name):
+        nm = (name or "").split(".")[-1]
+        if nm in ("log", "log10", "log2") and (name or "").startswith(("np.", "numpy.", "math.")) and len(call.args) == 1:
+            x = ev.eval(call.args[0])
+            if isinstance(x, (int, float)) and not isinstance(x, bool):
+                if x != x or x < 0:
+                    return float("nan")
+                if x == 0:
+                    return float("-inf")
+                return {"log": math.log, "log10": math.log10, "log2": math.log2}[nm](x)
+            return NO_MATCH
+        if nm == "isnan" and len(call.args) == 1:
+            x = ev.eval(call.args[0])
+            if isinstance(x, (int, float)):
+                return x != x
+            if isinstance(x, complex):
+                return False
+            return NO_MATCH
+        if nm == "brentq" and len(call.args) >= 3:
+            # scipy's contract: f(a) and f(b) must be real and of different signs, else ValueError / TypeError
+            f = ev.eval(call.args[0])
+            ends = [ev.eval(call.args[1]), ev.eval(call.args[2])]
+            if not (isinstance(f, tuple) and f and f[0] == "<func>"):
+                return NO_MATCH
+            vals = []
+            for x in ends:
+                if not isinstance(x, (int, float)):
+                    raise Raised("TypeError")
+                vals.append(ev.run_function(f[1], {f[1].args.args[0].arg: x}))
+            if any(isinstance(v, Sym) for v in vals):
+                raise Raised("TypeError")  # complex / non-numeric function value
+            if any(v != v for v in vals) or vals[0] * vals[1] > 0:
+                raise Raised("ValueError")
+            return Sym("root")
+        if nm == "int" and len(call.args) == 1:
+            x = ev.eval(call.args[0])
+            if isinstance(x, float) and (x != x or x in (float("inf"), float("-inf"))):
+                raise Raised("ValueError")
+            if isinstance(x, (int, float)):
+                return int(x)
+            if isinstance(x, Sym):
+                return Sym("number")
+            return NO_MATCH
+        if nm == "abs" and len(call.args) == 1:
+            x = ev.eval(call.args[0])
+            if isinstance(x, (int, float, complex)):
+                return abs(x)
+        if nm == "isinstance":
+            return True
+        if nm == "float" and len(call.args) == 1:
+            x = ev.eval(call.args[0])
+            if isinstance(x, str):
+                try:
+                    return float(x)
+                except ValueError:
+                    raise Raised("ValueError") from None
+            if isinstance(x, (int, float)):
+                return float(x)
+            return NO_MATCH
+        if nm == "eval" and len(call.args) == 1:
+            txt = ev.eval(call.args[0])
+            if isinstance(txt, str):
+                return bool(eval(compile(ast.parse(txt, mode="eval"), "<cond>", "eval"), {"__builtins__": {}}))  # a literal comparison such as '10>=1'
+        return NO_MATCH
+
+    import operator
+
+    OPS = {ast.Add: operator.add, ast.Sub: operator.sub, ast.Mult: operator.mul, ast.Div: operator.truediv, ast.Pow: operator.pow}
+
+    def arith(op, a, b):
+        num = lambda x: isinstance(x, (int, float, complex)) and not isinstance(x, bool)  # noqa: E731
+        if type(op) in OPS and num(a) and num(b):
+            try:
+                out = OPS[type(op)](a, b)
+                return Sym("complex number") if isinstance(out, complex) else out
+            except ZeroDivisionError:
+                raise Raised("ZeroDivisionError") from None
+            except OverflowError:
+                raise Raised("OverflowError") from None
+        if type(op) in OPS and (isinstance(a, Sym) or isinstance(b, Sym)):
+            return Sym("number")
+        return NO_MATCH
+
+    def run(fn, args):
+        ev = Evaluator(repo=repo, module=fn.module, call_hook=hook)
+        ev.binop_hook = arith
+        ev.float_arith = True
+        try:
+            out = ev.call_funcinfo(fn, list(args))
+        except Raised as err:
+            return "raises", err
+        except ZeroDivisionError as err:
+            return "raises", err
+        except (NotEvaluable, OverflowError) as err:
+            raise AnalysisError(f"{fn.name}{tuple(args)} not evaluable on the ratio model: {err}") from err
+        return "returns", out
+
+    n = 0
+    for fn in relation_functions(repo):
+        for ratio in ("total_expansion", "c2c_expansion"):
+            if ratio not in fn.params:
+                continue
+            for bad in (0.0, -0.5, -2.0):
+                args = [bad if p == ratio else ORDINARY[p] for p in fn.params]
+                kind, out = run(fn, args)
+                n += 1
+                r.check(
+                    kind == "raises",
+                    fn,
+                    f"{ratio} = {bad:g} rejected",
+                    f"{fn.name}({', '.join(f'{p}={a:g}' for p, a in zip(fn.params, args))}) returns {out!r} instead of raising: a {ratio.replace('_', ' ')} of {bad:g} cannot be realised by a geometric "
+                    f"progression, yet Chop(...).calculate() hands out a grading with a non-positive / complex expansion instead of an error",
+                    fn.node,
+                    key=f"{ratio}:{bad:g}",
+                )
+    for vname in ("_validate_total_expansion", "_validate_c2c_expansion"):
+        vf = repo.func(f"grading.relations.{vname}")
+        for good in (0.5, 1.0, 2.0):
+            kind, out = run(vf, [good])
+            r.check(kind == "returns", vf, f"{good:g} accepted", f"{vname}({good:g}) raises: an ordinary ratio is refused", vf.node, key=f"accept:{good:g}")
+    r.require(n >= 27, f"only {n} ratio scenarios found in grading.relations")
+    return r
+
+
+ratio_rejection.rule_id = "C03.RATIO-REJECTION"
+
+
+RULES = [registry_agreement, closure, invert_complete, validation_siblings, dimensions, bracket_siblings, unit_ratio_tests, copy_well_posed, no_stale_lazy_cache, reject_not_repair, no_memo, solver_tolerance, no_rounding, ratio_rejection]
